@@ -9,15 +9,15 @@
 #ifndef NMAX
 #define NMAX 0x3fffffffUL
 #endif
-Index gmk;
+Index gmk, gmk2;   /* two independent ghost (Skolem) indices: callers may need the callee's postcondition at two places */
 /* element equality that is also true for two NaNs (so that an assumed ensures never excludes NaN data) */
 #ifdef FEAT_FP
 #define MP_SAME(a, b) ((a) == (b) || ((a) != (a) && (b) != (b)))
 #else
 #define MP_SAME(a, b) ((a) == (b))
 #endif
-#define MP_SET_ENSURES  __CPROVER_ensures(gmk < count ==> MP_SAME(address[gmk], val))
-#define MP_COPY_ENSURES __CPROVER_ensures((dest != src && gmk < count) ==> MP_SAME(dest[gmk], src[gmk]))
+#define MP_SET_ENSURES  __CPROVER_ensures(gmk < count ==> MP_SAME(address[gmk], val)) __CPROVER_ensures(gmk2 < count ==> MP_SAME(address[gmk2], val))
+#define MP_COPY_ENSURES __CPROVER_ensures((dest != src && gmk < count) ==> MP_SAME(dest[gmk], src[gmk])) __CPROVER_ensures((dest != src && gmk2 < count) ==> MP_SAME(dest[gmk2], src[gmk2]))
 
 #ifndef MP_NO_DECL
 void MemoryPool_set_memory(DT_ * address, const DT_ val, const Index count)
